@@ -181,3 +181,9 @@ pub fn bool_then_some(b: bool, v: u64) -> (r: Option<u64>) ensures r == (if b { 
 pub fn btreeset_into_vec(a: BTreeSet<u64>) -> (r: Vec<u64>)
     ensures r@.to_set() == a@, r@.no_duplicates(), forall|i: int, j: int| 0 <= i < j < r.len() ==> r[i] < r[j]
 { a.into_iter().collect() }
+// Vec/iterator `.map(C).collect::<Vec<_>>()` over an already collected sequence (R12): element-wise, in order
+#[verifier::external_body]
+pub fn vec_map_collect<T, U, F: Fn(T) -> U>(v: Vec<T>, f: F) -> (r: Vec<U>)
+    requires forall|i: int| 0 <= i < v.len() ==> f.requires((#[trigger] v[i],))
+    ensures r.len() == v.len(), forall|i: int| 0 <= i < v.len() ==> f.ensures((v[i],), #[trigger] r[i])
+{ v.into_iter().map(f).collect() }
